@@ -1,0 +1,186 @@
+//go:build verif
+
+package db
+
+// Contracts for property C11 (writes are all-or-nothing; success is only reported when durable), db package.
+// Comment-only; read by /verif/engine. See also /repo/auth/zz_verif_c11.go (principals) and the path contract of
+// updateAndReturnDoc in zz_verif_c07.go (tagged C07 C11: release of reserved sequences, the write error surfaces).
+//
+// Shape: path contracts (`modifies *`: the heap effect is not described, only which results reach the caller and in
+// which order the side effects happen). For every storage call that is not documented as best-effort: a non-nil error
+// forces a non-nil error result (`propagates`). `best-effort` lines are documentation (parsed, no obligation): the
+// storage calls whose failure is deliberately not reported, with the source line that says so.
+
+// Clauses that FAIL on the current code (candidate findings; demonstrations in
+// /verif/findings/C11_db_swallowed_and_leaked_test.go):
+//   Document.persistModifiedRevisionBodies/propagates/persistRevisionBody#1  a failed AddRaw of a revision body returns nil (document.go:914-917 returns the wrong err)
+//   DatabaseCollectionWithUser.documentUpdateFunc/post/keeps-unused          every error return drops the caller's list of abandoned sequences (named result stays nil)
+//   DatabaseContext.UpdatePrincipal/post/release-on-failed-save              F4: sequence not released when Save fails with a non-CAS error (users.go:227-229)
+//   DatabaseContext.DeleteRole/post/release-on-failure                       the sequence reserved at users.go:36 is never released
+// Limitation of `propagates` (loop-free reading): an error swallowed by `continue` inside a loop is not detected
+// (setAttachments: mutation `return err` -> `continue` passes).
+
+//@ props C11
+
+// ---- attachments (written before the commit point; content-addressed keys, left behind on failure by design) ----
+//@ func DatabaseCollectionWithUser.setAttachment
+//@   modifies *
+//@   only-contracts none
+//@   propagates AddRaw#1
+//@   ensures[written] isNilErr(result) ==> called(AddRaw, 1) && isNilErr(callres(AddRaw, 1, 1))
+
+// Every failed AddRaw stops the loop with its error; an over-long attachment is an error.
+//@ func DatabaseCollectionWithUser.setAttachments
+//@   modifies *
+//@   only-contracts none
+//@   propagates AddRaw#1
+
+//@ func DatabaseCollectionWithUser.addAttachments
+//@   modifies *
+//@   only-contracts HTTPErrorf, Wrap
+//@   propagates setAttachments#1
+
+// ---- revision bodies ----
+//@ func Document.persistRevisionBody
+//@   modifies *
+//@   only-contracts none
+//@   propagates AddRaw#1
+
+// New non-inline revision bodies are written BEFORE the commit (document.go:893): a failed write must abort the update.
+//@ func Document.persistModifiedRevisionBodies
+//@   modifies *
+//@   only-contracts RedactErrorf
+//@   propagates getInfo#1 persistRevisionBody#1
+
+//@ func DatabaseCollectionWithUser.setOldRevisionJSONBody
+//@   modifies *
+//@   only-contracts none
+//@   propagates SetRaw#1
+
+//@ func DatabaseCollectionWithUser.setOldRevisionJSON
+//@   modifies *
+//@   only-contracts Errorf
+//@   propagates setOldRevisionJSONBody#1 MarshalJSON#1 JSONMarshal#1 SetRaw#1
+//@   ensures[written] isNilErr(result) ==> (called(setOldRevisionJSONBody, 1) && isNilErr(callres(setOldRevisionJSONBody, 1, 0))) || (called(SetRaw, 1) && isNilErr(callres(SetRaw, 1, 0)))
+
+// A missing backup is re-created; every other Touch error surfaces.
+//@ func DatabaseCollectionWithUser.refreshOldRevisionJSON
+//@   modifies *
+//@   only-contracts IsDocNotFoundError
+//@   propagates setOldRevisionJSON#1
+//@   ensures[touch-error] !isNilErr(callres(Touch, 1, 1)) && !(isDocNotFoundErr(callres(Touch, 1, 1)) && len(body) > 0) ==> !isNilErr(result)
+
+// ---- sequences ----
+// assignSequence: a failed reservation surfaces. When the freshly reserved number is unusable (not above the document's
+// current sequence) it is handed to releaseSequence before a greater one is requested.
+// best-effort: releaseSequence#1 - crud.go:2548-2550 "Error returned when releasing sequence %d. Falling back to skipped
+// sequence handling".
+// The list of abandoned sequences the caller has to account for (release on failure, record in the document on success)
+// never shrinks, and a sequence abandoned in this call (docSequence > 0, not above the document's sequence) is added to
+// it on every path, error paths included. (Length-level statement: the slice contents are heap state, which the
+// uncontracted allocator calls havoc; the slice header is a value.)
+//@ func DatabaseContext.assignSequence
+//@   modifies *
+//@   only-contracts none
+//@   best-effort releaseSequence#1
+//@   propagates nextSequence#1 nextSequenceGreaterThan#1
+//@   before[releases-the-fresh-one] call releaseSequence#1 isNilErr(callres(nextSequence, 1, 1)) && $2 == callres(nextSequence, 1, 0)
+//@   before[released-first] call nextSequenceGreaterThan#1 called(releaseSequence, 1)
+//@   ensures[keeps-unused]       len(result0) >= len(unusedSequences)
+//@   ensures[abandoned-recorded] docSequence > 0 && docSequence <= old(doc.Sequence) ==> len(result0) == len(unusedSequences) + 1
+//@   ensures[no-new-seq-needed]  docSequence > old(doc.Sequence) ==> !called(nextSequence, 1) && isNilErr(result1) && len(result0) == len(unusedSequences)
+
+//@ func DatabaseCollectionWithUser.assignSequence
+//@   modifies *
+//@   only-contracts assignSequence
+//@   propagates assignSequence#1
+//@   ensures[keeps-unused] len(result0) >= len(unusedSequences)
+
+// ---- documentUpdateFunc: the in-memory part of a document write, run inside the storage layer's CAS loop ----
+// Every rejection (existing-document validation, the caller's callback = conflict rules / request validation, the sync
+// function, attachment storage, sequence reservation, HLV update, channel computation, revision-body storage) reaches
+// the storage layer as a non-nil error, which makes it abandon the write.
+// best-effort: backupAncestorRevs#1 (no error result; revision.go:312 `_ = db.refreshOldRevisionJSON(...)`: old revision
+// bodies are an optimisation for in-flight replications and expire on their own).
+// The sync function's error may be replaced by the package variable ErrForbidden when ForceAPIForbiddenErrors() is set
+// (crud.go:2757-2761); that the variable is non-nil is not visible to the verifier (package variables are heap cells), so
+// [sync-fn-reject] is stated for the unmasked case and [sync-fn-reject-masked] names the masked value.
+// Order: nothing is written to the bucket (attachments, revision backups, revision bodies) and no sequence is reserved
+// before the callback and the sync function have accepted the write.
+// [keeps-unused]: the sequences handed in as "abandoned, to be released or recorded" are handed back on every return
+// (length-level, see assignSequence): updateAndReturnDoc overwrites its list with this result on every return,
+// error returns included, and releases only what is in the list.
+//@ func DatabaseCollectionWithUser.documentUpdateFunc
+//@   modifies *
+//@   only-contracts assignSequence
+//@   best-effort backupAncestorRevs#1
+//@   propagates validateExistingDoc#1 dynamic#1 prepareSyncFn#1 addAttachments#1 assignSequence#1 updateHLV#1 recalculateSyncFnForActiveRev#1 updateChannels#1 persistModifiedRevisionBodies#1
+//@   before[attachments-after-acceptance] call addAttachments#1 isNilErr(callres(dynamic, 1, 4)) && called(runSyncFn, 1) && isNilErr(callres(runSyncFn, 1, 5))
+//@   before[backup-after-acceptance]      call backupAncestorRevs#1 isNilErr(callres(dynamic, 1, 4)) && called(runSyncFn, 1) && isNilErr(callres(runSyncFn, 1, 5)) && (called(addAttachments, 1) ==> isNilErr(callres(addAttachments, 1, 0)))
+//@   before[sequence-after-acceptance]    call assignSequence#1 isNilErr(callres(dynamic, 1, 4)) && called(runSyncFn, 1) && isNilErr(callres(runSyncFn, 1, 5)) && (called(addAttachments, 1) ==> isNilErr(callres(addAttachments, 1, 0)))
+//@   before[bodies-after-sequence]        call persistModifiedRevisionBodies#1 called(assignSequence, 1) && isNilErr(callres(assignSequence, 1, 1)) && isNilErr(callres(updateHLV, 1, 1))
+//@   ensures[sync-fn-reject]        called(runSyncFn, 1) && !isNilErr(callres(runSyncFn, 1, 5)) && !callres(ForceAPIForbiddenErrors, 1, 0) ==> !isNilErr(err)
+//@   ensures[sync-fn-reject-masked] called(runSyncFn, 1) && !isNilErr(callres(runSyncFn, 1, 5)) && called(ForceAPIForbiddenErrors, 1) && callres(ForceAPIForbiddenErrors, 1, 0) ==> err == box(ErrForbidden)
+//@   ensures[success-complete]      isNilErr(err) ==> called(runSyncFn, 1) && called(assignSequence, 1) && called(persistModifiedRevisionBodies, 1)
+//@   ensures[keeps-unused]          len(retUnusedSequences) >= len(unusedSequences)
+
+// ---- principals (db/users.go) ----
+// DatabaseContext.DeleteRole: load, reserve a sequence, delete. Every failure surfaces.
+// [release-on-failure] (property: a failed write gives back the sequence it had reserved): when the delete fails, a release
+// attempt is made for the sequence reserved for it.
+//@ func DatabaseContext.DeleteRole
+//@   modifies *
+//@   only-contracts releaseSequence
+//@   propagates GetRole#1 nextSequence#1 DeleteRole#1
+//@   ensures[deleted] isNilErr(result) ==> called(DeleteRole, 1) && isNilErr(callres(DeleteRole, 1, 0))
+//@   ensures[release-on-failure] called(DeleteRole, 1) && !isNilErr(callres(DeleteRole, 1, 0)) && !isTimeoutErr(callres(DeleteRole, 1, 0)) ==> (callres(nextSequence, 1, 0) in releaseAttempted)
+
+// DatabaseContext.UpdatePrincipal: create or update a user / role from a config, in a CAS retry loop.
+// Every load, construction, validation, reservation and save failure surfaces; running out of CAS retries is an error;
+// success is reported only after Save returned nil (or nothing had to change).
+// best-effort: SetEmail#1 - users.go:131-133 "Skipping SetEmail for user %q - Invalid email address provided": an invalid
+// e-mail address is dropped from the update, the rest of the update is applied (documented behaviour of the admin API).
+// best-effort: releaseSequence#1 - users.go:224-226 logs "Error releasing unused sequence".
+// [release-on-cas-retry]: the sequence reserved by an attempt that lost the CAS race is handed to releaseSequence.
+// [release-on-failed-save] (candidate finding F4): when Save fails with an error that is neither a CAS mismatch (retried)
+// nor a timeout (outcome unknown), a release attempt is made for the sequence reserved for this attempt. Stated as a
+// path fact (the one releaseSequence call site of the function, whose argument is pinned by [release-on-cas-retry], is
+// executed): the ghost formulation `nextSeq in releaseAttempted` needs releaseSequence's precondition
+// dbc.sequences != nil at the call site, which cannot be carried through the ~40 uncontracted interface calls of the loop body.
+//@ func DatabaseContext.UpdatePrincipal
+//@   modifies *
+//@   only-contracts IsCasMismatch, Errorf, HTTPErrorf
+//@   best-effort SetEmail#1 releaseSequence#1
+//@   propagates GetUser#1 GetRole#1 NewUserNoChannels#1 NewRoleNoChannels#1 RequiresCollectionAccessUpdate#1 SetPassword#1 nextSequence#1 Save#1
+//@   loop 1 invariant[cas-pending] i > 1 ==> !isNilErr(err)
+//@   before[release-on-cas-retry] call releaseSequence#1 $2 == callres(nextSequence, 1, 0) && isCasMismatchErr(callres(Save, 1, 0))
+//@   ensures[retries-exhausted] callres(AllOrNoneNil, 1, 0) && !called(GetUser, 1) && !called(GetRole, 1) ==> !isNilErr(err)   // the return after the loop
+//@   ensures[saved-or-unchanged] isNilErr(err) ==> !called(nextSequence, 1) || (called(Save, 1) && isNilErr(callres(Save, 1, 0)))
+//@   ensures[release-on-failed-save] called(Save, 1) && !isNilErr(callres(Save, 1, 0)) && !isCasMismatchErr(callres(Save, 1, 0)) && !isTimeoutErr(callres(Save, 1, 0)) ==> called(releaseSequence, 1)
+
+// ---- Purge ----
+// The load, the attachment listing and the delete of the document surface; nil only after the delete succeeded.
+// best-effort: Delete#1 (attachment documents) - crud.go:3511-3513 "Unable to delete attachment %q".
+// NOT STATED (engine limitation, see report): "attachment documents are deleted only once the document itself is gone".
+// The code deletes the attachments first (loop at crud.go:3510) and the document afterwards (crud.go:3532): a failed
+// document delete leaves the document without its attachments. `called(Delete, 1)` is a per-path, loop-free fact: after
+// the loop it is false by construction, and `called(DeleteWithXattrs, 1)` before the loop is a generation error.
+//@ func DatabaseCollectionWithUser.Purge
+//@   modifies *
+//@   only-contracts none
+//@   best-effort Delete#1
+//@   propagates GetDocumentWithRaw#1 getAttachmentIDsForLeafRevisions#1 DeleteWithXattrs#1
+//@   ensures[purged] isNilErr(result) ==> called(DeleteWithXattrs, 1) && isNilErr(callres(DeleteWithXattrs, 1, 0))
+
+// ---- the update callback of updateAndReturnDoc (run by the storage layer, possibly several times on CAS races) ----
+// A failure to decode the stored document, every rejection reported by documentUpdateFunc and a failure to encode the
+// new document reach the storage layer as a non-nil error (which makes WriteUpdateWithXattrs abandon the write and
+// return that error: [surfaces] of updateAndReturnDoc).
+// best-effort: getAttachmentIDsForLeafRevisions#1 - crud.go:2907-2910: on error the removal of obsolete attachments is
+// skipped for this write (skipObsoleteAttachmentsRemoval = true), which is the safe direction.
+//@ func DatabaseCollectionWithUser.updateAndReturnDoc$1
+//@   modifies *
+//@   only-contracts RedactErrorf
+//@   best-effort getAttachmentIDsForLeafRevisions#1
+//@   propagates unmarshalDocumentWithXattrs#1 documentUpdateFunc#1 MarshalWithXattrs#1
+//@   ensures[update-computed] isNilErr(err) ==> called(documentUpdateFunc, 1) && isNilErr(callres(documentUpdateFunc, 1, 8)) && called(MarshalWithXattrs, 1)
